@@ -81,7 +81,7 @@ def cases(tier, seed):
             for hdr in (True, False):
                 for comment in (True, False):
                     yield {"k": "fields", "cop": cop, "lic": lic, "hdr": hdr, "comment": comment}
-    for f in ("write-fails", "toml-is-directory", "toml-is-dangling-symlink", "toml-is-symlink-to-file", "unlink-fails", "no-dep5", "toml-exists"):
+    for f in ("write-fails", "toml-is-directory", "toml-is-dangling-symlink", "toml-is-symlink-to-file", "unlink-fails", "no-dep5", "toml-exists", "toml-is-fifo"):
         yield {"k": "fault", "fault": f}
     for holder in ("ascii", "latin", "cjk"):
         yield {"k": "locale", "holder": holder}
@@ -290,6 +290,9 @@ def ev_fault(c) -> R:
         rec[".reuse/dep5"] = dep5_text([(["*"], ["2001 Jane"], "MIT", False)])
     if f == "toml-is-directory":
         rec["REUSE.toml/inner"] = "x\n"
+    elif f == "toml-is-fifo":
+        # (opened for reading without blocking for the time of the command: what matters is that nothing is written into the pipe)
+        rec["REUSE.toml"] = {"fifo": True}
     elif f == "toml-is-dangling-symlink":
         rec["REUSE.toml"] = {"symlink": "missing-dir/REUSE.toml"}
     elif f == "toml-is-symlink-to-file":
@@ -312,8 +315,18 @@ def ev_fault(c) -> R:
                 return real_p_unlink(self, *a, **kw)
             pathlib.Path.unlink = bad_unlink
         plan = FaultPlan(lambda p: p == target, modes="w") if f == "write-fails" else FaultPlan(lambda p: False)
+        fd = os.open(target, os.O_RDONLY | os.O_NONBLOCK) if f == "toml-is-fifo" else None
         with faulty_open(plan):
             out = run_cli(["--root", str(root), "convert-dep5"])
+        if fd is not None:
+            try:
+                piped = os.read(fd, 65536)
+            except BlockingIOError:
+                piped = b""
+            os.close(fd)
+            if piped or not os.path.exists(root / ".reuse/dep5") or out.exit_code == 0:
+                r.violation("converted-into-a-pipe", f"convert-dep5 where REUSE.toml is a named pipe: exit {out.exit_code}, {len(piped)} bytes written into the pipe, "
+                                                     f"dep5 {'kept' if os.path.exists(root / '.reuse/dep5') else 'removed'}")
     finally:
         pathlib.Path.unlink = real_p_unlink
     after = read_tree(root)
@@ -338,6 +351,13 @@ def ev_fault(c) -> R:
             r.violation(f"neither-dep5-nor-toml|{f}", f"{label}: exit {out.exit_code} ({out.exc}); dep5 is gone and REUSE.toml is {'absent' if toml is None else 'incomplete: ' + repr(toml[:80])}")
         if out.exit_code == 0 and out.exc is None and not (complete and not has_dep5) and f not in ("unlink-fails",):
             r.violation(f"success-but-incomplete|{f}", f"{label}: exit 0 but dep5 present={has_dep5}, REUSE.toml complete={complete}")
+    if out.exc is not None:
+        r.violation(f"crash|{f}|{out.exc}", f"{label}: unhandled {out.exc_repr}")
+    if f in ("write-fails", "toml-is-directory", "toml-is-fifo", "unlink-fails"):
+        # whatever the answer was, the project must still be one: a REUSE.toml next to a dep5 that could not be removed stops every command
+        lint = run_cli(["--root", str(root), "--no-multiprocessing", "lint", "--json"])
+        if lint.exit_code == 2 or lint.exc is not None:
+            r.violation(f"conversion-leaves-broken-project|{f}", f"{label}: exit {out.exit_code}; afterwards `reuse lint` stops with {str(lint.brief())[:300]}")
     r.outcome = f"fault-{f}-exit{out.exit_code}"
     r.tags.append("fault")
     return r
